@@ -261,8 +261,14 @@ def rule_bsc(repo: Repo, rep: Report) -> int:
         rep.add("TRANSITION", fi, f"BSC output: {unparse(ys[0])}", s, d, node=ys[0])
         if flips:
             fe = inl.inline(flips[0].value)
-            ok = isinstance(fe, ast.Call) and isinstance(fe.func, ast.Attribute) and fe.func.attr in ("float", "to", "int", "long", "type") and isinstance(fe.func.value, ast.Compare)
-            rep.shape(ok, False, "TRANSITION", fi, f"flip indicator: {unparse(fe)[:120]}", "0/1 indicator of the Bernoulli event", "flips is not the 0/1 indicator of the Bernoulli comparison", node=flips[0])
+            ok = isinstance(fe, ast.Call) and isinstance(fe.func, ast.Attribute) and fe.func.attr in ("float", "to", "int", "long", "type", "double") and isinstance(fe.func.value, ast.Compare)
+            # a bare comparison is a bool tensor: `bool + bool` is a logical OR in torch, so for a bool-typed bit tensor a 1 is never flipped
+            arith = [b for b in ast.walk(e) if isinstance(b, ast.BinOp) and isinstance(b.op, (ast.Add, ast.Sub)) and any(isinstance(o, ast.Name) and o.id == "flips" for o in (b.left, b.right))]
+            logical = [b for b in ast.walk(e) if (isinstance(b, ast.BinOp) and isinstance(b.op, ast.BitXor)) or (isinstance(b, ast.Call) and (call_name(b) or "").endswith("logical_xor")) or (isinstance(b, ast.Compare) and isinstance(b.ops[0], ast.NotEq))]
+            if isinstance(fe, ast.Compare) and logical and not arith:
+                ok = True
+            wrong = isinstance(fe, ast.Compare) and bool(arith)
+            rep.shape(ok, wrong, "TRANSITION", fi, f"flip indicator: {unparse(fe)[:120]}", "0/1 indicator of the Bernoulli event", "the flip indicator is a bool mask added arithmetically to the bits: for a bool-typed bit tensor `x + flips` is a logical OR, so a transmitted 1 is never flipped (the channel is not symmetric)", node=flips[0])
         n += 2
     n += rule_bipolar(rep, fi)
     n += rule_params(repo, rep, "BinarySymmetricChannel", "crossover_prob")
